@@ -547,3 +547,20 @@ func WalkerState(c *linter.Checker) string {
 	sort.Strings(out)
 	return strings.Join(out, ";")
 }
+
+// ASTShape summarises what a removal would change: number of declarations, imports, comment groups and nodes per kind.
+func ASTShape(f *ast.File) string {
+	kinds := map[string]int{}
+	ast.Inspect(f, func(n ast.Node) bool {
+		if n != nil {
+			kinds[strings.TrimPrefix(fmt.Sprintf("%T", n), "*ast.")]++
+		}
+		return true
+	})
+	var ks []string
+	for k, n := range kinds {
+		ks = append(ks, fmt.Sprintf("%s:%d", k, n))
+	}
+	sort.Strings(ks)
+	return fmt.Sprintf("decls=%d imports=%d comments=%d %s", len(f.Decls), len(f.Imports), len(f.Comments), strings.Join(ks, " "))
+}
